@@ -98,7 +98,7 @@ func Perm(n int, code uint64) []int {
 }
 
 //go:norace
-func nextDecision(n int, site int) uint64 {
+func nextDecision(n int, site int, mp uintptr) uint64 {
 	op := curTask().op
 	if op == nil {
 		return 0
@@ -109,7 +109,7 @@ func nextDecision(n int, site int) uint64 {
 	}
 	op.TapePos++
 	if len(op.Decisions) < maxDecisions {
-		op.Decisions = append(op.Decisions, Decision{Site: site, N: n, Code: code})
+		op.Decisions = append(op.Decisions, Decision{Site: site, N: n, Code: code, Map: mp})
 	}
 	op.NDecisions++
 	return code
@@ -159,7 +159,7 @@ func lessValue(a, b reflect.Value) bool {
 
 // orderIndices returns the visiting order of vals as indices: canonical order
 // permuted by the next decision of the running op.
-func orderIndices(vals []reflect.Value, site int) []int {
+func orderIndices(vals []reflect.Value, site int, mp uintptr) []int {
 	n := len(vals)
 	ix := make([]int, n)
 	for i := range ix {
@@ -169,7 +169,7 @@ func orderIndices(vals []reflect.Value, site int) []int {
 		return ix
 	}
 	sort.SliceStable(ix, func(i, j int) bool { return lessValue(vals[ix[i]], vals[ix[j]]) })
-	code := nextDecision(n, site)
+	code := nextDecision(n, site, mp)
 	if code == 0 {
 		return ix
 	}
@@ -181,11 +181,11 @@ func orderIndices(vals []reflect.Value, site int) []int {
 	return out
 }
 
-func applyOrder(keys []reflect.Value, site int) []reflect.Value {
+func applyOrder(keys []reflect.Value, site int, mp uintptr) []reflect.Value {
 	if len(keys) < 2 {
 		return keys
 	}
-	ix := orderIndices(keys, site)
+	ix := orderIndices(keys, site, mp)
 	out := make([]reflect.Value, len(keys))
 	for i, j := range ix {
 		out[i] = keys[j]
@@ -199,7 +199,7 @@ func MapKeys(v reflect.Value, site int) []reflect.Value {
 	if !seamOn() {
 		return keys
 	}
-	return applyOrder(keys, site)
+	return applyOrder(keys, site, v.Pointer())
 }
 
 //go:norace
@@ -218,7 +218,7 @@ func MapRange(v reflect.Value, site int) *MapIter {
 	if !seamOn() {
 		return &MapIter{real: v.MapRange()}
 	}
-	return &MapIter{m: v, keys: applyOrder(v.MapKeys(), site), i: -1}
+	return &MapIter{m: v, keys: applyOrder(v.MapKeys(), site, v.Pointer()), i: -1}
 }
 
 func (it *MapIter) Next() bool {
@@ -266,7 +266,7 @@ func KeysOf[M ~map[K]V, K comparable, V any](m M, site int) []K {
 	for i := range snap {
 		vals[i] = reflect.ValueOf(&snap[i]).Elem()
 	}
-	for i, j := range orderIndices(vals, site) {
+	for i, j := range orderIndices(vals, site, reflect.ValueOf(m).Pointer()) {
 		out[i] = snap[j]
 	}
 	return out
